@@ -329,7 +329,7 @@ void ExecImpl::op_call(const Op& op) {
     }
     check_reports(o, want, false, "call", kind_props("C01,C15").c_str());
     if (stop) return;
-    if (!o.oks.empty()) { fail("C16", "ok_on_reject", "an OK report ('" + o.oks[0].msg + "') was sent for a call reported as a violation; " + call_desc()); return; }
+    if (!o.oks.empty()) { fail(cat == FORBIDDEN ? "C16,C07" : cat == SEQ ? "C16,C05" : "C16", "ok_on_reject", "an OK report ('" + o.oks[0].msg + "') was sent for a call reported as a violation; " + call_desc()); return; }
     nontriv("C15");
     return;
   }
